@@ -13,7 +13,7 @@ pub fn tree_case(seed: u64, i: u64) -> Expression {
     let leaves = 1 + r.usize(5);
     gen_tree(&mut r, leaves, &mut |r| match r.below(12) {
         0 => Expression::Positional(PositionalOption::XDev),
-        1 => t(gen_unsupported_test(r.usize(UNSUPPORTED_TESTS))),
+        1 => t(gen_unsupported_test_with(r.usize(UNSUPPORTED_TESTS), r)),
         2 => act(Action::PrintFormatted(vec![FormatElement::Field(unsupported_field_by_index(r.usize(UNSUPPORTED_FIELDS)))])),
         3 => {
             // sizes whose byte size does not fit (constructor route)
